@@ -137,6 +137,14 @@ void net_forward(Conn *c, int dir, const uint8_t *data, size_t len)
 	}
 }
 
+static int pipe_sender_in_hs(Pipe *p)
+{
+	for (int i = 0; i < g_nconns; i++)
+		for (int d = 0; d < 2; d++)
+			if (&g_conns[i].pipe[d] == p) return !g_conns[i].hs_phase[d == DIR_C2S ? 0 : 1];
+	return 0;
+}
+
 void net_parse_records(Pipe *p)
 {
 	while (p->sent_len - p->rec_parsed >= 5) {
@@ -148,6 +156,7 @@ void net_parse_records(Pipe *p)
 			r->off = p->rec_parsed; r->len = len; r->type = h[0];
 			r->ver = (uint16_t)((h[1] << 8) | h[2]);
 			r->step = g_sim.step;
+			r->in_hs = (uint8_t)pipe_sender_in_hs(p);
 		}
 		p->nrecs++;
 		p->rec_parsed += len;
@@ -178,7 +187,9 @@ static int pred_readable(void *arg)
 	return p->closed_wr;         /* drained and closed -> EOF is observable */
 }
 
-static size_t inflight(Pipe *p) { return (p->wr - p->rd) + (p->sent_len - p->fwd); }
+/* bytes waiting in the interposer for the rest of their record do not count:
+ * a man in the middle has its own buffer */
+static size_t inflight(Pipe *p) { return p->wr - p->rd; }
 
 static int pred_writable(void *arg)
 {
@@ -240,6 +251,7 @@ ssize_t net_send(int fd, const void *buf, size_t len)
 		g_sim.probes[PR_SEND_BLOCKED]++;
 		if (k->eagain) {
 			p->n_eagain++;
+			sim_cur()->retry_pred = pred_writable; sim_cur()->retry_arg = p;
 			sim_yield(EV_SEND, -EAGAIN, c->id * 2 + dir);
 			errno = EAGAIN; return -1;
 		}
@@ -293,6 +305,7 @@ ssize_t net_recv(int fd, void *buf, size_t len)
 			if (!boundary || c->hs_phase[side]) {
 				p->n_eagain++;
 				g_sim.probes[boundary ? PR_EAGAIN_BOUNDARY : PR_EAGAIN_MID]++;
+				sim_cur()->retry_pred = pred_readable; sim_cur()->retry_arg = p;
 				sim_yield(EV_RECV, -EAGAIN, c->id * 2 + dir);
 				errno = EAGAIN; return -1;
 			}
